@@ -7,6 +7,9 @@
 (*            exception the caller caught versus the one that was raised   *)
 (*  is_pyro_error, names_class, names_message   for the fallback           *)
 (*  next_ok   the next call on the same proxy returned its own value       *)
+(*  session_kept  a per-connection object of the same connection still had *)
+(*            its state at that next call (a substitute error is the       *)
+(*            daemon's answer to the call, not a failure of the connection)*)
 (***************************************************************************)
 EXTENDS Naturals, Sequences, TLC, Json, IOUtils
 VARIABLES kind, carriable, ck
@@ -34,6 +37,7 @@ Check(x) ==
     ELSE (IF x.same_class /\ x.args_equal THEN ""            \* it travelled after all: fine
           ELSE IF ~x.is_pyro_error THEN "C07.FallbackNotAPyroError"
           ELSE IF ~x.names_class THEN "C07.FallbackDoesNotDescribeOriginal"
+          ELSE IF ~x.session_kept THEN "C07.ConnectionLostWithTheSubstitute"
           ELSE "")
 Step == l = 1 /\ l' = 2 /\ t' = t /\ bad' = Check(X) /\ UNCHANGED <<kind, carriable, ck>>
 Spec == Init /\ [][Step]_vars
